@@ -201,6 +201,56 @@ def run_hillclimb_impl(ranges, max_iter, limit, supply=None):
     return out
 
 
+class ArchStub:
+    """what tensor_allocation.allocate needs from the architecture: the hard limit of a memory type"""
+
+    def __init__(self, size):
+        self.size = size
+
+    def mem_type_size(self, mem_type):
+        return self.size
+
+
+def run_dispatch_impl(tag, align, ranges, names, max_iter, limit, supply=None):
+    """tensor_allocation.allocate(sg, arch, mem_area, mem_type_set, tensor_allocator, lr_graph, cpu_tensor_alignment,
+    hillclimb_max_iterations) on a prepared LiveRangeGraph: the live-range extraction is replaced by a function that
+    returns the prepared graph; ranges whose alignment is the requested one carry a CPU tensor (as the extraction
+    would have made them), so Vela's own verify_alignment looks at them."""
+    from ethosu.vela import tensor_allocation, live_range
+    from ethosu.vela.errors import AllocationError
+    from ethosu.vela.nn_graph import TensorAllocator
+    from ethosu.vela.tensor import MemType
+    g = make_graph(ranges, names, [dict(cpu=(r[3] == align)) for r in ranges])
+    seen = {}
+
+    def fake_extract(sg, mem_area, mem_type_set, **kw):
+        seen.update(kw)
+        return g
+    rec = Recorder(supply)
+    orig = live_range.extract_live_ranges_from_cascaded_passes
+    live_range.extract_live_ranges_from_cascaded_passes = fake_extract
+    rec.install()
+    out = {"err": None, "guard": None, "total": None, "timeout": None}
+    try:
+        with contextlib.redirect_stdout(io.StringIO()):
+            _, out["total"] = bounded(lambda: tensor_allocation.allocate(
+                None, ArchStub(limit), None, {MemType.Scratch}, tensor_allocator=TensorAllocator(tag), lr_graph=None,
+                cpu_tensor_alignment=align, hillclimb_max_iterations=max_iter))
+    except CaseTimeout:
+        out["timeout"] = _limit[0]
+    except AllocationError as ex:
+        out["guard"] = str(ex)
+    except (ValueError, IndexError, AssertionError, TypeError) as ex:
+        out["err"] = "%s: %s" % (type(ex).__name__, ex)
+    finally:
+        rec.remove()
+        live_range.extract_live_ranges_from_cascaded_passes = orig
+    out["addr"] = addresses(g)
+    out["stream"] = rec.log
+    out["forwarded_alignment"] = seen.get("cpu_tensor_alignment")
+    return out
+
+
 def hc_static_impl(ranges):
     from ethosu.vela import hillclimb_allocation
     g = make_graph(ranges)
@@ -320,7 +370,7 @@ def build_cases(tier, rng):
     nz = 300 if quick else 5000
     zero = [gen_ranges(rng, rng.randint(2, 8), rng.randint(2, 6), [0, 0, 1, 16, 17, 100], ALIGNS) for _ in range(nz)]
     zero.insert(0, [(0, 5, 100, 16), (1, 1, 0, 16), (1, 5, 16, 16)])
-    return {"greedy": greedy, "hill": hill, "zero": zero, "exhaustive": len(exhaustive),
+    return {"greedy": greedy, "hill": hill, "zero": zero, "exhaustive": len(exhaustive), "smallrand": smallrand, "mid": mid, "big": big,
             "dist": {"corpus": len(corpus), "exhaustive_small_scope": len(exhaustive), "random_le5_ranges_5_steps": n_small,
                      "random_6_40_ranges": n_mid, "random_100_300_ranges": n_big, "zero_size_stream": len(zero)}}
 
@@ -599,13 +649,82 @@ def run(tier):
                         "addresses": himpl[3]["addr"], "total": himpl[3]["total"], "randint_results": himpl[3]["stream"][:12]})
 
     phase["hillclimb"] = round(time.time() - t_h, 1)
+    # ---------------- the dispatcher tensor_allocation.allocate ----------------
+    t_d = time.time()
+    nd = 240 if tier == "quick" else 6000
+    pool = cases["smallrand"][:nd * 2] + cases["mid"]
+    dcases = []
+    for k in range(nd):
+        base = pool[(k * 7) % len(pool)] if k % 10 else cases["big"][(k // 10) % len(cases["big"])]
+        al = [16, 32, 64, 128, 256][k % 5]
+        tag = 1 + (k // 5) % 3                                           # LinearAlloc = 1, Greedy = 2, HillClimb = 3
+        base = base[: (24 if tag == 3 else 150)]                         # the hill-climb search is the expensive part
+        r = [(x[0], x[1], x[2], rng.choice([16, al])) for x in base]     # extraction gives 16 or the requested alignment
+        pk = peak(r)
+        mi = rng.choice([0, 1, 7, 100])
+        lim = rng.choice([0, pk // 2, pk, pk + 16, 1 << 32, 1 << 32])
+        dcases.append((tag, al, r, rng.sample(range(len(r)), len(r)), mi, lim, None))
+    dbudget = 6 if tier == "quick" else 150
+    dimpl = []
+    for c in dcases:
+        if time.time() - t_d > dbudget or sum(1 for o in dimpl if o["timeout"]) >= 2:
+            break
+        dimpl.append(run_dispatch_impl(*c))
+    dcases = dcases[:len(dimpl)]
+    dkind = {1: "linear", 2: "greedy", 3: "hillclimb"}
+    for (tag, al, r, nm, mi, lim, _), o in zip(dcases, dimpl):
+        evals += 1
+        if len(r) > 1:
+            nontrivial += 1
+        kind = "allocate(%s, cpu_tensor_alignment=%d)" % (dkind[tag], al)
+        extra = {"tensor_allocator": dkind[tag], "cpu_tensor_alignment": al, "hillclimb_max_iterations": mi, "mem_type_size": lim}
+        if o["timeout"]:
+            bad(kind, r, TIMEOUT_WHY % o["timeout"], extra)
+            continue
+        if o["err"] is not None:
+            bad(kind, r, "the dispatcher raised " + o["err"], extra)
+            continue
+        ok_addr = all(a is not None for a in o["addr"])
+        if o["guard"]:
+            why = oracle(dkind[tag], r, o["addr"], max([a + x[2] for a, x in zip(o["addr"], r)] + [0]), gran=al) if ok_addr else None
+            bad(kind, r, (why + "; " if why else "") + "Vela's own verification raised: " + o["guard"], dict(extra, addresses=o["addr"]))
+            continue
+        why = oracle(dkind[tag], r, o["addr"], o["total"], gran=al)
+        if not why and o["forwarded_alignment"] != al:
+            why = "the live-range extraction was asked for alignment %r, requested %d" % (o["forwarded_alignment"], al)
+        if why:
+            bad(kind, r, why, dict(extra, addresses=o["addr"], total=o["total"]))
+    if okx and dcases:
+        mo = models.run("allocate", [[tag, al, 1, mi, lim] + flat_lrs(r, nm) + o["stream"]
+                                      for (tag, al, r, nm, mi, lim, _), o in zip(dcases, dimpl)], exe_name="alloc")
+        for (tag, al, r, nm, mi, lim, _), o, m in zip(dcases, dimpl, mo):
+            if o["timeout"] or o["guard"] or o["err"] is not None:
+                continue
+            if tag == 2:
+                pos = {nm[i]: i for i in range(len(r))}
+                maddr = [None] * len(r)
+                for k in range(1, len(m), 2):
+                    maddr[pos[m[k]]] = m[k + 1]
+                got, want = [m[0]] + maddr, [o["total"]] + o["addr"]
+            else:
+                got, want = m, [1, o["total"]] + o["addr"]
+            if got != want:
+                diffs.append(("allocate", r, {"model": got[:50], "impl": want[:50], "tensor_allocator": dkind[tag],
+                                              "cpu_tensor_alignment": al, "hillclimb_max_iterations": mi, "mem_type_size": lim}))
+    if len(dimpl) > 7:
+        samples.append({"dispatcher": "tensor_allocation.allocate", "tensor_allocator": dkind[dcases[7][0]],
+                        "cpu_tensor_alignment": dcases[7][1], "ranges": dcases[7][2][:8], "addresses": dimpl[7]["addr"][:8],
+                        "total": dimpl[7]["total"]})
+    phase["dispatcher"] = round(time.time() - t_d, 1)
     res.cov.update({
         "phase_seconds": phase,
         "evaluations": evals, "distinct_nontrivial": nontrivial,
         "rule": "range sets with at least two ranges alive at a common time step (Greedy, HillClimb); Linear: at least two entries; "
                 "every case: real allocator vs extracted model (addresses, total, number of randint draws) and the property oracle on "
                 "the implementation's result",
-        "input_distribution": dict(cases["dist"], linear_cases=len(lcases), hillclimb_cases_run=len(hcases),
+        "input_distribution": dict(cases["dist"], linear_cases=len(lcases), hillclimb_cases_run=len(hcases), dispatcher_cases_run=len(dcases),
+                                   dispatcher_parameters="tensor_allocator in {LinearAlloc, Greedy, HillClimb} x cpu_tensor_alignment in "
+                                                         "{16,32,64,128,256}, range alignments 16 or the requested one",
                                    hillclimb_search_passes=iters_seen,
                                    hillclimb_parameters="max_iterations in {None,0,1,7,100,600,1500} x memory_limit in {0,peak,peak+16,2^32}; "
                                                         "every third case with an adversarial randint stream"),
